@@ -193,6 +193,22 @@ def parse_cex(out):
     return states
 
 
+def run_apalache(module, args, timeout=1800):
+    """apalache-mc check on spec/<module>.tla (in a scratch copy: Apalache writes _apalache-out next to the spec).
+    Returns (ok, outcome_text)."""
+    d = scratch_spec({})
+    out = os.path.join(d, "_apa")
+    try:
+        p = sh(["apalache-mc", "check", f"--out-dir={out}"] + list(args) + [module + ".tla"], cwd=d, timeout=timeout,
+               env={"JVM_ARGS": "-Xmx4g"})
+    except subprocess.TimeoutExpired:
+        raise ToolError(f"apalache timeout after {timeout}s: {module} {args}")
+    m = re.search(r"The outcome is: (\w+)", p.stdout)
+    if not m:
+        raise ToolError("apalache produced no outcome:\n" + p.stdout[-2000:])
+    return m.group(1) == "NoError", m.group(1)
+
+
 def sany(module):
     p = sh(["java", "-Djava.io.tmpdir=" + os.path.join(PWORK, "tmp"), "-cp", JAR, "tla2sany.SANY", module + ".tla"], cwd=SPEC, timeout=120)
     return ("Semantic errors" not in p.stdout and "rror" not in p.stdout.replace("errors: 0", "")), p.stdout
